@@ -144,4 +144,17 @@ def corpus(stdlib):
 
 
 def run(r):
+    # protocol part (exploration shared with C19): histories of open / change notifications sent to the REAL server,
+    # incl. workspaces that exist on disk before it starts (the scan has indexed what is then opened and edited);
+    # after every notification the findings it publishes must be those of a fresh database on the latest contents
+    import os, random
+    import core, C19
+    quick = r.tier == "quick"
+    h1, _ = core.build_harness()
+    stdlib = set(core.tables()["stdlib_modules"])
+    bad, nh = C19.server_history_failures(r, h1, random.Random(r.seed * 17 + 6), int(os.environ.get("VERIF_SERVER_HISTORIES", 10 if quick else 80)), stdlib)
+    for k, b in enumerate(bad[:2]):
+        r.violation(dict({"property": PID, "part": "server histories"}, **b), "srv_%d" % k)
+    r.notes.append("protocol part: %d histories over stdio" % nh)
+    r.extra_coverage = {"server_histories": nh}
     return runner.drive_ws(r, sys.modules[__name__])
